@@ -28,27 +28,41 @@
    object-variable / plain literals only (ov_theory reports nothing), and compares the domains before / after pops and against
    a fresh network (evidence key ov_instance_tie); the domain function itself is C14's ov_value (tools/checks/c14.py, h_ov.cpp:
    C08_ov_domain_is_the_domain_of_the_ov_model).  Listeners are outside the model.
-   NOT discharged for LRA / IDL / RDL (hence the two _partial theorems stay): each of those models embeds its own fragment of
-   the SAT state (assignment, queue, trail) and its own event vocabulary.  For IDL (RDL alike) the adapter is
-     TS = Dl.state, th_push = do_push, th_pop = do_pop, th_propagate ts a dl p = propagate_lit on ts with the embedded assignment
-     replaced by the `a` sat_core passes (idl_theory reads sat->value of constraint literals that are assigned but still queued),
-   and C10_idl_pop_restores (do_pop (run (do_push s) os) = s) does not apply to it as it stands, for two reasons that are the
-   precise missing lemmas:
-     (L1) the undo invariant DlUndo_Proofs.UP c0 N s fixes `unw s = N`, and unw contains the embedded assignment and trail; what is
-          needed is its theory projection UP' (unw restricted to n_vars, dists, preds, dist_constr, var_dists, dist_constrs, layers)
-          with UP'_push, UP'_propagate_lit (for an ARBITRARY embedded assignment / queue of the same trail depth) and
-          UP'_pop : UP' (cap s) (th_part s) s' -> th_part (do_pop s') = th_part s;
-     (L2) the structural half of `good` that UP_push consumes (shape_ok, tb_wf, so_levels, layer well-formedness, pm_sorted) is
-          only proved preserved together with the semantic half along wf_run histories whose assignment is the one built by
-          OEnqueue; it has to be proved preserved by propagate_lit / do_push / do_pop for arbitrary embedded assignments, so that
-          it can serve as th_inv of C08_pop_after_assume_restores_trace_form_partial (th_obs = th_part).
-   With (L1) and (L2) the trace-form theorem instantiates; both are re-proofs of about fifteen lemmas of DlUndo_Proofs /
-   DlStep_Proofs under weaker premises - more than the time box allowed.  LRA: C09_pop_restores_bounds has the same shape over
-   EPush / EPop events and needs the analogous adapter.  The propositional instance is complete, and the history-independence
-   of the real mixed network (sat_core + lra + idl + rdl + ov) is checked on the implementation by tools/checks/c08.py. *)
+   IDL / RDL (smt/DlAdapter.v, proofs/DlAdapter_Proofs.v; generic in the distance domain): the adapter is
+     TS = Dl.state, th_push = do_push, th_pop = do_pop, th_check = no lemma / no conflict,
+     th_propagate ts a dl p = propagate_lit on ts with the embedded assignment REPLACED by the `a` sat_core passes and an empty
+     embedded queue (idl_theory reads sat->value of constraint literals that are assigned but still queued); lemmas (hook kind 2)
+     and the conflict are handed back; the embedded trail only counts levels; th_obs = th_part = what idl_theory.h declares
+     (time points, _dists, _preds, dist_constr, var_dists, dist_constrs, layers).
+   The two lemmas that were missing are PROVED, for arbitrary assignments supplied from outside:
+     (L1) UP' = the theory projection of DlUndo_Proofs.UP ("a pop would give the theory part N"): UP'_push, UP'_embed (replacing
+          assignment and queue), UP'_propagate_lit, UP'_pop; hence the trace law
+          C08_dl_theory_undo : dl_th_inv ts0 -> th_reach dl_thp dl_thc (th_push ts0) ts -> th_part (th_pop ts) = th_part ts0
+          (it does not even need the quiet side conditions of th_reach: lemmas and conflicts do not disturb the layers);
+     (L2) dl_th_inv = the structural half of `good` (square matrices of the capacity, sorted in-range undo layers, dist_constr
+          sorted, time points / constraint end points inside the capacity, one trail level per layer plus root) is preserved by
+          th_propagate (any assignment, any level, with or without lemma / conflict), th_check, th_push, th_pop:
+          C08_dl_theory_invariant_preserved; it holds in every state of the model reached by a history (good -> dl_th_inv:
+          C08_dl_model_states_are_legal_theory_states), so any network built by new_var / new_distance / relations qualifies.
+   With them C08_pop_after_assume_restores_trace_form_partial instantiates to C08_pop_after_assume_restores_sat_idl_partial /
+   _sat_rdl_partial: all FIVE undo-related hypotheses (four preservations + the trace law) are discharged.  They remain
+   _partial for ONE reason, which is not about undo: the hypothesis `theory_contract T thp thc` of the SAT-side theorems
+   (proofs/SatCoreThm_Proofs.v) asks that the lemmas / conflicts of th_propagate (thst s) (assigns s) ... be T-valid, over
+   existing variables, false under s apart from the head, FOR EVERY sat state s with Inv T s - whatever theory state thst s is.
+   ov_theory meets it because it never says anything; a theory with a real state cannot: a Dl.state that is not `good` for the
+   assignment of s may emit anything.  What is needed is a contract RELATIVE to a joint invariant (thst s is `good` for the
+   assignment embedded from s: Dl's sat_ok / queue_ok / prop_ok with assigns := assigns s), carried along run like Inv; under it
+   C10_idl_clauses_valid / C10_rdl_clauses_valid (lemmas and conflicts are DL-valid, tail false, head undefined) are exactly the
+   lemma_ok / cnfl_ok obligations.  That is a change of SatCoreRun_Proofs' section hypothesis (th_propagate_ok) and of the
+   proofs that carry Inv, not of the DL development.  `ub = false` stays as in the generic theorem (C07's no-UB theorem needs
+   the same contract).  LRA: C09_pop_restores_bounds has the same shape over EPush / EPop events and needs the analogous
+   adapter.  The propositional and the object-variable instances are complete, and the history-independence of the real mixed
+   network (sat_core + lra + idl + rdl + ov) is checked on the implementation by tools/checks/c08.py. *)
 From Coq Require Import List Arith Bool ZArith Permutation Sorted.
 From ORatio Require Import smt.SatCoreBase smt.SatCoreSpec smt.SatCore
   proofs.SatCoreInv_Proofs proofs.SatCoreRun_Proofs proofs.SatCoreThm_Proofs proofs.SatCoreTh_Proofs proofs.SatCoreUndo_Proofs proofs.SatCoreWlThm_Proofs smt.SatCoreOv proofs.SatCoreOv_Proofs.
+From ORatio Require smt.DlDom smt.Dl smt.DlInst smt.DlAdapter proofs.DlOrd_Proofs proofs.DlSpec_Proofs proofs.DlAdapter_Proofs
+  proofs.DlHist_Proofs proofs.DlIdl_Proofs proofs.DlRdl_Proofs.
 Import ListNotations.
 
 (* the assignment vector is a function of the trail alone, after ANY history *)
@@ -181,3 +195,96 @@ Example C08_sat_ov_example :
   ovs_value (ovn_pop s') 0 = [0; 1] /\ ovs_value (ovn_pop s') 1 = [1; 2].
 Proof. exact ex_sat_ov. Qed.
 Print Assumptions C08_sat_ov_example.
+
+(* ---------------------------------------------------------------------------------------------- *)
+(* The networks sat_core + IDL / RDL (adapter smt/DlAdapter.v): the undo-related hypotheses are discharged, for arbitrary
+   assignments supplied by sat_core; generic in the distance domain D / dm. *)
+
+(* (L2) the structural invariant of the theory state is preserved by the four theory functions *)
+Theorem C08_dl_theory_invariant_preserved : forall (D : Type) (dm : DlDom.dom D),
+  (forall ts a dl p, DlAdapter_Proofs.dl_th_inv D ts -> DlAdapter_Proofs.dl_th_inv D (fst (fst (DlAdapter.dl_thp D dm ts a dl p)))) /\
+  (forall ts a dl, DlAdapter_Proofs.dl_th_inv D ts -> DlAdapter_Proofs.dl_th_inv D (fst (fst (DlAdapter.dl_thc D ts a dl)))) /\
+  (forall ts, DlAdapter_Proofs.dl_th_inv D ts -> DlAdapter_Proofs.dl_th_inv D (DlAdapter.dl_thpush D ts)) /\
+  (forall ts, DlAdapter_Proofs.dl_th_inv D ts -> DlAdapter_Proofs.dl_th_inv D (DlAdapter.dl_thpop D ts)).
+Proof.
+  exact (fun D dm => conj (DlAdapter_Proofs.dl_inv_thp D dm) (conj (DlAdapter_Proofs.dl_inv_thc D)
+                     (conj (DlAdapter_Proofs.dl_inv_push D) (DlAdapter_Proofs.dl_inv_pop D dm)))).
+Qed.
+Print Assumptions C08_dl_theory_invariant_preserved.
+
+(* (L1) the trace law: whatever propagate(p) / check() calls sat_core makes inside a level, with whatever assignments, the pop
+   gives back the theory part of the state of the push *)
+Theorem C08_dl_theory_undo : forall (D : Type) (dm : DlDom.dom D) ts0 ts,
+  DlAdapter_Proofs.dl_th_inv D ts0 ->
+  th_reach (DlAdapter.dl_thp D dm) (DlAdapter.dl_thc D) (DlAdapter.dl_thpush D ts0) ts ->
+  DlAdapter.th_part D (DlAdapter.dl_thpop D ts) = DlAdapter.th_part D ts0.
+Proof. exact DlAdapter_Proofs.dl_th_undo. Qed.
+Print Assumptions C08_dl_theory_undo.
+
+(* every state of the difference-logic model that satisfies its invariant `good` (C10_idl_invariant / C10_rdl_invariant: every
+   state reached by a history) is a legal initial theory state *)
+Theorem C08_dl_model_states_are_legal_theory_states :
+  forall (O : DlOrd_Proofs.ogroup) (D : Type) (dm : DlDom.dom D) (DS : DlSpec_Proofs.domspec O D dm) (s : Dl.state D),
+  DlSpec_Proofs.good O D dm DS s -> DlAdapter_Proofs.dl_th_inv D s.
+Proof. exact DlAdapter_Proofs.good_th_inv. Qed.
+Print Assumptions C08_dl_model_states_are_legal_theory_states.
+
+(* the assembled theorem for sat_core + idl_theory: no undo hypothesis is left; _partial only because of the contract of
+   sat_core towards the theory's lemmas / conflicts (see the header) *)
+Theorem C08_pop_after_assume_restores_sat_idl_partial :
+  forall (sat : bool) (T : asg -> Prop) sort FUEL,
+  sort_contract sort -> theory_contract T (DlAdapter.dl_thp Z (DlDom.idl_dom sat)) (DlAdapter.dl_thc Z) ->
+  forall ops ts, DlAdapter_Proofs.dl_th_inv Z ts ->
+  run_ok sort (DlAdapter.dl_thp Z (DlDom.idl_dom sat)) (DlAdapter.dl_thc Z) (DlAdapter.dl_thpush Z) (DlAdapter.dl_thpop Z) FUEL ops (init ts) = true ->
+  ub (run sort (DlAdapter.dl_thp Z (DlDom.idl_dom sat)) (DlAdapter.dl_thc Z) (DlAdapter.dl_thpush Z) (DlAdapter.dl_thpop Z) FUEL ops (init ts)) = false ->
+  forall p s', pre (run sort (DlAdapter.dl_thp Z (DlDom.idl_dom sat)) (DlAdapter.dl_thc Z) (DlAdapter.dl_thpush Z) (DlAdapter.dl_thpop Z) FUEL ops (init ts)) (OAssume p) = true ->
+  assume sort (DlAdapter.dl_thp Z (DlDom.idl_dom sat)) (DlAdapter.dl_thc Z) (DlAdapter.dl_thpush Z) (DlAdapter.dl_thpop Z) FUEL
+    (run sort (DlAdapter.dl_thp Z (DlDom.idl_dom sat)) (DlAdapter.dl_thc Z) (DlAdapter.dl_thpush Z) (DlAdapter.dl_thpop Z) FUEL ops (init ts)) p = (s', RTrue) ->
+  log s' = log (run sort (DlAdapter.dl_thp Z (DlDom.idl_dom sat)) (DlAdapter.dl_thc Z) (DlAdapter.dl_thpush Z) (DlAdapter.dl_thpop Z) FUEL ops (init ts)) ->
+  restored _ (DlAdapter.th_part Z)
+    (run sort (DlAdapter.dl_thp Z (DlDom.idl_dom sat)) (DlAdapter.dl_thc Z) (DlAdapter.dl_thpush Z) (DlAdapter.dl_thpop Z) FUEL ops (init ts))
+    (pop (DlAdapter.dl_thpop Z) s').
+Proof. exact (fun sat => DlAdapter_Proofs.c08_sat_dl Z (DlDom.idl_dom sat)). Qed.
+Print Assumptions C08_pop_after_assume_restores_sat_idl_partial.
+
+Theorem C08_pop_after_assume_restores_sat_rdl_partial :
+  forall (guard : bool) (T : asg -> Prop) sort FUEL,
+  sort_contract sort -> theory_contract T (DlAdapter.dl_thp DlDom.qd (DlDom.rdl_dom guard)) (DlAdapter.dl_thc DlDom.qd) ->
+  forall ops ts, DlAdapter_Proofs.dl_th_inv DlDom.qd ts ->
+  run_ok sort (DlAdapter.dl_thp DlDom.qd (DlDom.rdl_dom guard)) (DlAdapter.dl_thc DlDom.qd) (DlAdapter.dl_thpush DlDom.qd) (DlAdapter.dl_thpop DlDom.qd) FUEL ops (init ts) = true ->
+  ub (run sort (DlAdapter.dl_thp DlDom.qd (DlDom.rdl_dom guard)) (DlAdapter.dl_thc DlDom.qd) (DlAdapter.dl_thpush DlDom.qd) (DlAdapter.dl_thpop DlDom.qd) FUEL ops (init ts)) = false ->
+  forall p s', pre (run sort (DlAdapter.dl_thp DlDom.qd (DlDom.rdl_dom guard)) (DlAdapter.dl_thc DlDom.qd) (DlAdapter.dl_thpush DlDom.qd) (DlAdapter.dl_thpop DlDom.qd) FUEL ops (init ts)) (OAssume p) = true ->
+  assume sort (DlAdapter.dl_thp DlDom.qd (DlDom.rdl_dom guard)) (DlAdapter.dl_thc DlDom.qd) (DlAdapter.dl_thpush DlDom.qd) (DlAdapter.dl_thpop DlDom.qd) FUEL
+    (run sort (DlAdapter.dl_thp DlDom.qd (DlDom.rdl_dom guard)) (DlAdapter.dl_thc DlDom.qd) (DlAdapter.dl_thpush DlDom.qd) (DlAdapter.dl_thpop DlDom.qd) FUEL ops (init ts)) p = (s', RTrue) ->
+  log s' = log (run sort (DlAdapter.dl_thp DlDom.qd (DlDom.rdl_dom guard)) (DlAdapter.dl_thc DlDom.qd) (DlAdapter.dl_thpush DlDom.qd) (DlAdapter.dl_thpop DlDom.qd) FUEL ops (init ts)) ->
+  restored _ (DlAdapter.th_part DlDom.qd)
+    (run sort (DlAdapter.dl_thp DlDom.qd (DlDom.rdl_dom guard)) (DlAdapter.dl_thc DlDom.qd) (DlAdapter.dl_thpush DlDom.qd) (DlAdapter.dl_thpop DlDom.qd) FUEL ops (init ts))
+    (pop (DlAdapter.dl_thpop DlDom.qd) s').
+Proof. exact (fun guard => DlAdapter_Proofs.c08_sat_dl DlDom.qd (DlDom.rdl_dom guard)). Qed.
+Print Assumptions C08_pop_after_assume_restores_sat_rdl_partial.
+
+(* the hypotheses other than the contract are met by a concrete network: two time points with the constraints
+   c1: x2 - x1 <= 5 and c2: x1 - x2 <= -3 built in the IDL model (a state reached by a history, hence a legal theory state),
+   the two constraint literals created in sat_core, c1 decided: the theory tightens dist(1,2) from +inf to 5 and records
+   nothing; the pop gives the theory part back *)
+Example C08_sat_idl_example :
+  let ts := Dl.run Z (DlDom.idl_dom false) (DlInst.idl_init false 5)
+              [Dl.ONewVar Z; Dl.ONewVar Z; Dl.ONewDistance Z 1 2 5%Z; Dl.ONewDistance Z 2 1 (-3)%Z] in
+  let thp := DlAdapter.dl_thp Z (DlDom.idl_dom false) in
+  let s := run (@isort lit) thp (DlAdapter.dl_thc Z) (DlAdapter.dl_thpush Z) (DlAdapter.dl_thpop Z) 100 [ONewVar; ONewVar] (init ts) in
+  let s' := fst (assume (@isort lit) thp (DlAdapter.dl_thc Z) (DlAdapter.dl_thpush Z) (DlAdapter.dl_thpop Z) 100 s (1, true)) in
+  DlAdapter_Proofs.dl_th_inv Z ts /\
+  run_ok (@isort lit) thp (DlAdapter.dl_thc Z) (DlAdapter.dl_thpush Z) (DlAdapter.dl_thpop Z) 100 [ONewVar; ONewVar] (init ts) = true /\
+  ub s = false /\ pre s (OAssume (1, true)) = true /\
+  assume (@isort lit) thp (DlAdapter.dl_thc Z) (DlAdapter.dl_thpush Z) (DlAdapter.dl_thpop Z) 100 s (1, true) = (s', RTrue) /\
+  log s' = log s /\
+  Dl.dget Z (DlDom.idl_dom false) (thst s) 1 2 = DlDom.INF /\ Dl.dget Z (DlDom.idl_dom false) (thst s') 1 2 = 5%Z /\
+  DlAdapter.th_part Z (thst (pop (DlAdapter.dl_thpop Z) s')) = DlAdapter.th_part Z (thst s).
+Proof.
+  intros ts thp s s'. split.
+  - apply (DlAdapter_Proofs.good_th_inv DlIdl_Proofs.Zog Z (DlDom.idl_dom false) (DlIdl_Proofs.idl_spec false)).
+    apply (DlHist_Proofs.history_good DlIdl_Proofs.Zog Z (DlDom.idl_dom false) (DlIdl_Proofs.idl_spec false) 5);
+      [auto with arith | vm_compute; repeat split; try reflexivity; try discriminate; auto with arith | vm_compute; reflexivity | vm_compute; reflexivity].
+  - vm_compute. repeat split; reflexivity.
+Qed.
+Print Assumptions C08_sat_idl_example.
